@@ -644,6 +644,9 @@ func init() {
 			return in.readFull(a[0].(IfaceV), a[1].(BytesV))
 		},
 		// ---------------------------------------------------------------- regexp
+		"regexp.QuoteMeta": func(in *Interp, fn *ssa.Function, a []Value) Value {
+			return mkStr(regexp.QuoteMeta(in.litArg(a[0], "regexp.QuoteMeta argument")))
+		},
 		"regexp.Compile": func(in *Interp, fn *ssa.Function, a []Value) Value {
 			pat := in.litArg(a[0], "regexp pattern")
 			if _, err := regexp.Compile(pat); err != nil {
